@@ -511,3 +511,121 @@ Proof.
       exact (IH v b Tb Hcv x Hv Hb).
 Qed.
 End Compare.
+
+(* ================================================================ the pair loops *)
+Section Loops.
+Variable m : module.
+Variable fuel : nat.
+
+Lemma res_or_false_l : forall r, res_or (Done false) r = r.
+Proof. destruct r as [|b]; reflexivity. Qed.
+Lemma res_or_false_r : forall r, res_or r (Done false) = r.
+Proof. destruct r as [|b]; simpl; [reflexivity | rewrite orb_false_r; reflexivity]. Qed.
+Lemma res_or_assoc : forall a b c, res_or a (res_or b c) = res_or (res_or a b) c.
+Proof. destruct a as [|x], b as [|y], c as [|z]; simpl; try reflexivity. rewrite orb_assoc. reflexivity. Qed.
+Lemma res_or_Done_false : forall a b, res_or a b = Done false -> a = Done false /\ b = Done false.
+Proof.
+  destruct a as [|x], b as [|y]; simpl; intro H; try discriminate.
+  inversion H as [E]. apply orb_false_iff in E. destruct E; subst. auto.
+Qed.
+Lemma res_or_Done_true : forall a b, res_or a b = Done true -> a = Done true \/ b = Done true.
+Proof.
+  destruct a as [|x], b as [|y]; simpl; intro H; try discriminate.
+  inversion H as [E]. apply orb_true_iff in E. destruct E; subst; auto.
+Qed.
+
+Definition all_opt (l : list node) : Prop := Forall (fun u => n_opt u = true) l.
+
+(* the pairs the inner loop compares v with: in a SEQUENCE, up to and
+   including the first member that is not OPTIONAL/DEFAULT *)
+Definition reach (is_seq : bool) (rest : list node) (nv : node) : Prop :=
+  exists pre post, rest = pre ++ nv :: post /\ (is_seq = true -> all_opt pre).
+
+Lemma scan_from_false : forall is_seq v rest,
+  scan_from m fuel is_seq v rest = Done false ->
+  forall nv, reach is_seq rest nv -> compare m fuel [] v nv = Done false.
+Proof.
+  intros is_seq v. induction rest as [|u rest IH]; intros H nv [pre [post [E Hopt]]].
+  - destruct pre; discriminate.
+  - simpl in H. destruct pre as [|w pre]; simpl in E; inversion E; subst.
+    + destruct (is_seq && negb (n_opt nv)); [exact H|].
+      apply res_or_Done_false in H. tauto.
+    + destruct (is_seq && negb (n_opt w)) eqn:Stop.
+      * apply andb_true_iff in Stop. destruct Stop as [S1 S2].
+        specialize (Hopt S1). inversion Hopt; subst.
+        rewrite H2 in S2. discriminate.
+      * apply res_or_Done_false in H. destruct H as [_ H].
+        apply IH; [exact H|]. exists pre, post. split; [reflexivity|].
+        intro S1. specialize (Hopt S1). inversion Hopt; assumption.
+Qed.
+
+Lemma scan_from_true : forall is_seq v rest,
+  scan_from m fuel is_seq v rest = Done true ->
+  exists nv, reach is_seq rest nv /\ compare m fuel [] v nv = Done true.
+Proof.
+  intros is_seq v. induction rest as [|u rest IH]; intro H; [discriminate|].
+  simpl in H.
+  assert (Hu : reach is_seq (u :: rest) u).
+  { exists [], rest. split; [reflexivity | intros _; constructor]. }
+  destruct (is_seq && negb (n_opt u)) eqn:Stop.
+  - exists u. auto.
+  - apply res_or_Done_true in H. destruct H as [H|H]; [exists u; auto|].
+    apply IH in H. destruct H as [nv [[pre [post [E Hopt]]] Hc]].
+    exists nv. split; [|exact Hc].
+    exists (u :: pre), post. split; [simpl; rewrite E; reflexivity|].
+    intro S1. constructor; [|exact (Hopt S1)].
+    rewrite S1 in Stop. simpl in Stop. destruct (n_opt u); [reflexivity | discriminate].
+Qed.
+
+(* the pairs the outer loop visits *)
+Definition run_pair (is_seq : bool) (l : list node) (v nv : node) : Prop :=
+  exists l1 rest, l = l1 ++ v :: rest /\ (is_seq = true -> n_opt v = true) /\ reach is_seq rest nv.
+
+Lemma scan_all_false : forall is_seq l,
+  scan_all m fuel is_seq l = Done false ->
+  forall v nv, run_pair is_seq l v nv -> compare m fuel [] v nv = Done false.
+Proof.
+  intros is_seq. induction l as [|u l IH]; intros H v nv [l1 [rest [E [Hv Hr]]]].
+  - destruct l1; discriminate.
+  - simpl in H. apply res_or_Done_false in H. destruct H as [H1 H2].
+    destruct l1 as [|w l1]; simpl in E; inversion E; subst.
+    + assert (C : negb is_seq || n_opt v = true).
+      { destruct is_seq; simpl; [apply Hv; reflexivity | reflexivity]. }
+      rewrite C in H1. eapply scan_from_false; eassumption.
+    + apply IH; [exact H2|]. exists l1, rest. auto.
+Qed.
+
+Lemma scan_all_true : forall is_seq l,
+  scan_all m fuel is_seq l = Done true ->
+  exists v nv, run_pair is_seq l v nv /\ compare m fuel [] v nv = Done true.
+Proof.
+  intros is_seq. induction l as [|u l IH]; intro H; [discriminate|].
+  simpl in H. apply res_or_Done_true in H. destruct H as [H|H].
+  - destruct (negb is_seq || n_opt u) eqn:C; [|discriminate].
+    apply scan_from_true in H. destruct H as [nv [Hr Hc]].
+    exists u, nv. split; [|exact Hc].
+    exists [], l. split; [reflexivity|]. split; [|exact Hr].
+    intro S1. rewrite S1 in C. simpl in C. exact C.
+  - apply IH in H. destruct H as [v [nv [[l1 [rest [E [Hv Hr]]]] Hc]]].
+    exists v, nv. split; [|exact Hc].
+    exists (u :: l1), rest. split; [simpl; rewrite E; reflexivity | auto].
+Qed.
+
+(* a SEQUENCE scan never runs across a member that is not OPTIONAL/DEFAULT:
+   the "..." marker separates the root from the additions *)
+Lemma scan_from_stop : forall v A s B, n_opt s = false ->
+  scan_from m fuel true v (A ++ s :: B) = scan_from m fuel true v (A ++ [s]).
+Proof.
+  intros v A s B Hs. induction A as [|u A IH]; simpl.
+  - rewrite Hs. reflexivity.
+  - destruct (negb (n_opt u)); [reflexivity|]. rewrite IH. reflexivity.
+Qed.
+
+Lemma scan_all_split : forall A s B, n_opt s = false ->
+  scan_all m fuel true (A ++ s :: B) = res_or (scan_all m fuel true (A ++ [s])) (scan_all m fuel true B).
+Proof.
+  intros A s B Hs. induction A as [|u A IH]; simpl.
+  - rewrite Hs. rewrite !res_or_false_l. reflexivity.
+  - rewrite IH. rewrite (scan_from_stop u A s B Hs). rewrite res_or_assoc. reflexivity.
+Qed.
+End Loops.
